@@ -700,6 +700,53 @@ pub fn gen_events_opt(rng: &mut Rng, faults: bool, stalls: bool) -> E2Scn {
 }
 
 /// dedicated arrival patterns for the debounce window
+/// An event storm inside one long window: hundreds of events at one instant (all accepted, all rejected, or mixed),
+/// sometimes an urgent one at the end, a probe afterwards. What a bounded buffer or a counter does at its 256th entry.
+pub fn gen_storm(rng: &mut Rng) -> E2Scn {
+    let throttle = *rng.pick(&[300u64, 1000, 5000]);
+    let n = *rng.pick(&[40u64, 100, 257, 300, 600]);
+    let mix = rng.below(4); // 0 all accepted, 1 all rejected, 2 mostly rejected with errors, 3 mixed
+    let mut steps = Vec::new();
+    let mut verdicts = Vec::new();
+    // something ordinary first, so that the worker has been through a cycle
+    steps.push(PStep { gap: 10, kind: PKind::Send { id: 5, prio: 1, empty: false } });
+    for i in 0..n {
+        let id = 10 + i as u32;
+        let v = match mix {
+            0 => 0,
+            1 => 1,
+            2 => {
+                if i % 10 == 9 {
+                    2
+                } else {
+                    1
+                }
+            }
+            _ => (rng.below(3) == 0) as u8,
+        };
+        if v != 0 {
+            verdicts.push((id, v));
+        }
+        let gap = if i == 0 { throttle + 2000 } else { *rng.pick(&[0u64, 0, 0, 1]) };
+        steps.push(PStep { gap, kind: PKind::Send { id, prio: *rng.pick(&[0u8, 1, 1, 2]), empty: false } });
+    }
+    if rng.chance(1, 2) {
+        // an urgent event (e.g. the interrupt signal) lands on the full window
+        steps.push(PStep { gap: *rng.pick(&[0u64, 1, 50]), kind: PKind::Send { id: 5000, prio: 3, empty: false } });
+    }
+    E2Scn {
+        family: "storm".into(),
+        throttle,
+        error_cap: *rng.pick(&[64u32, 64, 4]),
+        handler_async: rng.chance(1, 3),
+        handler_durs: vec![*rng.pick(&[0u64, 5])],
+        producers: vec![steps],
+        verdicts,
+        probe: true,
+        ..Default::default()
+    }
+}
+
 pub fn gen_debounce(rng: &mut Rng) -> E2Scn {
     let throttle = *rng.pick(&[0u64, 1, 10, 50]);
     let mut steps = Vec::new();
@@ -1040,7 +1087,7 @@ e2_check!(
     "C01",
     200_000,
     40_000_000,
-    |rng: &mut Rng, idx: u64| if idx % 4 == 3 { gen_debounce(rng) } else if idx % 16 == 6 { gen_filter_replaced(rng) } else { gen_events_opt(rng, idx % 2 == 1, true) },
+    |rng: &mut Rng, idx: u64| if idx % 4 == 3 { gen_debounce(rng) } else if idx % 16 == 6 { gen_filter_replaced(rng) } else if idx % 200 == 9 { gen_storm(rng) } else { gen_events_opt(rng, idx % 2 == 1, true) },
     |scn: &E2Scn, d: &D2, _out: &RunOut, stats: &mut Stats| oracle_c01(scn, d, stats),
     vec![
         "probe:urgent-event",
@@ -1062,7 +1109,7 @@ e2_check!(
     "C02",
     200_000,
     40_000_000,
-    |rng: &mut Rng, idx: u64| if idx % 2 == 0 { gen_debounce(rng) } else { gen_events(rng, idx % 4 == 1) },
+    |rng: &mut Rng, idx: u64| if idx % 200 == 8 { gen_storm(rng) } else if idx % 2 == 0 { gen_debounce(rng) } else { gen_events(rng, idx % 4 == 1) },
     |scn: &E2Scn, d: &D2, _out: &RunOut, stats: &mut Stats| oracle_c02(scn, d, stats),
     vec![
         "probe:non-urgent-batch-judged",
@@ -1939,6 +1986,8 @@ impl Check for C08 {
                 crate::p_e3::gen_cli_race(rng)
             } else if mapped {
                 crate::p_e3::gen_cli_mapped(rng)
+            } else if idx % 100 == 24 {
+                crate::p_e3::gen_cli_storm(rng)
             } else if idx % 20 == 4 {
                 crate::p_e3::gen_cli_grouped(rng)
             } else {
